@@ -100,8 +100,8 @@ def check(run, F, tier):
     local_entries = [(f["name"], f, "") for f in sendh.values()] + [(n, ms[n], "") for n in local_names if n in ms]
     feed = F.fns.get("mqtt::connection::packet_builder::PacketBuilder::feed")
 
-    r1 = run.rule("C05-R1", "no undischarged panic site reachable from recv()", floor=100)
-    r1l = run.rule("C05-R1L", "no undischarged panic site reachable from the local API", floor=60)
+    r1 = run.rule("C05-R1", "no undischarged panic site reachable from recv()", floor=200)
+    r1l = run.rule("C05-R1L", "no undischarged panic site reachable from the local API", floor=41)
     mech = aud = 0
     used = set()
 
@@ -144,6 +144,7 @@ def check(run, F, tier):
     if feed:
         # framer explored on its own (PacketBuilder is not inlined into recv)
         obs, st = panics.collect(F, feed["path"], inline_pred=lambda ex, callee, info: callee.get("impl_self", "").startswith("mqtt::connection::packet_builder::")
+                                 or callee.get("impl_self", "").startswith("mqtt::common::cursor::Cursor")
                                  or callee.get("kind") == "Closure", facts_hook=C04.consumed_facts)
         for o in obs:
             if o.status == "discharged":
